@@ -31,10 +31,12 @@ either `StreamReaderWrapper` or `PatchedIceCastClient`):
 * `wrapper_pending_exact` at every point, unread buffer ++ untouched source = source from the
                           position on (no byte taken from the source is ever dropped);
 * `wrapper_progress`      unprotected, a read of ≥ 1 byte is empty only at the end of the source;
-* `icecast_exact`         the same exactness for the HTTP stacking, with the download thread's
-                          fetch / store steps interleaved arbitrarily with the consumer;
-* `icecast_stop_complete` the download side flags end of stream only when every source byte
-                          is in the buffer (any short-read pattern of the HTTP body).
+* `icecast_exact`         the same exactness for the HTTP stacking against the AUDIO bytes of the
+                          response body (`audioOf`: the body itself, or — with `icy-metaint` —
+                          the body minus length bytes and metadata blocks), with the download
+                          thread's fetch / store steps interleaved arbitrarily with the consumer;
+* `icecast_stop_complete` the download side flags end of stream only when every audio byte
+                          is in the buffer (any body, any short-read pattern).
 -/
 namespace PyatvModel.Props.C17
 open PyatvModel.C17
@@ -207,35 +209,49 @@ example :
 example :
     (((World.init 4 2 true (pat 0 0 30) []).run .bio [.read (some 4)]).1.read (some 3)).2 = [] := by decide
 
-theorem icecast_exact (size H : Nat) (prot : Bool) (hH : 1 ≤ H) (S : Bytes) (ks : List Nat)
-    (ops : List IOp) :
-    IRef.ok S 0 (ops.zip ((IWorld.init size H prot S ks).run ops).2) :=
-  ((IRel.init size H prot hH S ks).run ops).1
+theorem icecast_exact (size H : Nat) (prot : Bool) (hH : 1 ≤ H) (M : Nat) (W : Bytes) (ks : List Nat)
+    (ops : List IOp) (hblk : ∀ op ∈ ops, op.blockOk = true) :
+    IRef.ok (audioOf M W) 0 (ops.zip ((IWorld.init size H prot M W ks).run ops).2) :=
+  ((IRel.init size H prot hH M W ks).run ops hblk).1
 
-/-- non-vacuity: blocks of 4 into a 10/5 buffer (third block has to wait), a consumer read
-    between fetch and store, read past the headroom, failed seek, then the stream continues
-    without a gap. -/
+/-- non-vacuity (plain HTTP): blocks of 4 into a 10/5 buffer (third block has to wait), a
+    consumer read between fetch and store, read past the headroom, failed seek, then the
+    stream continues without a gap. -/
 example :
-    ((IWorld.init 10 5 true (pat 0 0 30) []).run
+    ((IWorld.init 10 5 true 0 (pat 0 0 30) []).run
         [.feed 4, .fetch 4, .read 3, .store, .feed 4, .read 3, .seek 0, .protect false, .read 7, .feed 4,
          .seek 0, .read 9]).2
       = [.flag true, .flag true, .data (pat 0 0 3), .flag true, .flag false, .data (pat 0 3 3), .pos 0,
          .flag true, .data (pat 0 0 7), .flag true, .pos 7, .data (pat 0 7 5)] := by decide
 
-/-- The download side flags the end of the stream only when nothing is left to fetch or
-    to store — for every short-read pattern of the HTTP body and every interleaving of
-    consumer operations between `fetch` and `store`: once `stopped`, the unread part of the
-    buffer is the whole rest of the source, so a consumer that reads until the flagged end
-    receives the source completely. -/
-theorem icecast_stop_complete (size H : Nat) (prot : Bool) (hH : 1 ≤ H) (S : Bytes) (ks : List Nat)
+/-- non-vacuity (ICY): `icy-metaint` 4 above the block size 3, metadata blocks of length 1
+    and 0, short reads inside `_readall` (oracle 1,0,5,…): the consumer gets exactly the 10
+    audio bytes although the body has 28 bytes; the end is flagged by the last `store`. -/
+example :
+    audioOf 4 (wire 0 4 [1, 0] 10 100) = pat 0 0 10 ∧ (wire 0 4 [1, 0] 10 100).length = 28 ∧
+    ((IWorld.init 16 8 false 4 (wire 0 4 [1, 0] 10 100) [1, 0, 5]).run
+        [.feed 3, .feed 3, .feed 3, .read 9, .feed 3, .fetch 3, .read 9, .store, .read 9]).2
+      = [.flag true, .flag true, .flag true, .data (pat 0 0 7), .flag true, .flag true, .data (pat 0 7 1),
+         .flag true, .data (pat 0 8 2)] ∧
+    (∀ op ∈ [IOp.feed 3, .fetch 3, .store, .read 9], op.blockOk = true) := by decide
+
+/-- The download side decides (`ended`) and flags (`stopped`) the end of the stream only
+    when no audio is left in the response — for every body (with or without ICY framing,
+    cut anywhere), every short-read pattern and every interleaving of consumer operations
+    between `fetch` and `store`: once `stopped`, nothing is waiting to be stored and the
+    unread part of the buffer is the whole rest of the audio, so a consumer that reads
+    until the flagged end receives the audio completely. -/
+theorem icecast_stop_complete (size H : Nat) (prot : Bool) (hH : 1 ≤ H) (M : Nat) (W : Bytes) (ks : List Nat)
     (ops : List IOp) (hblk : ∀ op ∈ ops, op.blockOk = true)
-    (hstop : ((IWorld.init size H prot S ks).run ops).1.stopped = true) :
-    ((IWorld.init size H prot S ks).run ops).1.chunk.getD [] = [] ∧
-    ((IWorld.init size H prot S ks).run ops).1.w.src.rest = [] ∧
-    ((IWorld.init size H prot S ks).run ops).1.w.b.pending
-      = S.drop ((IWorld.init size H prot S ks).run ops).1.w.b.pos := by
-  have hs := IWorld.run_stopOk (IWorld.init size H prot S ks) (by intro h; cases h) ops hblk hstop
-  obtain ⟨a', r'⟩ := ((IRel.init size H prot hH S ks).run ops).2
+    (hstop : ((IWorld.init size H prot M W ks).run ops).1.stopped = true) :
+    ((IWorld.init size H prot M W ks).run ops).1.chunk.getD [] = [] ∧
+    ((IWorld.init size H prot M W ks).run ops).1.view = [] ∧
+    ((IWorld.init size H prot M W ks).run ops).1.w.b.pending
+      = (audioOf M W).drop ((IWorld.init size H prot M W ks).run ops).1.w.b.pos := by
+  have h0 : (IWorld.init size H prot M W ks).StopOk :=
+    ⟨fun h => by simp [IWorld.init] at h, fun h => by simp [IWorld.init] at h⟩
+  have hs := (IWorld.run_stopOk (IWorld.init size H prot M W ks) h0 ops hblk).stop hstop
+  obtain ⟨a', r'⟩ := ((IRel.init size H prot hH M W ks).run ops hblk).2
   have hp := r'.rel.pending
   simp only [IWorld.virt, hs.1, hs.2, List.append_nil] at hp
   exact ⟨hs.1, hs.2, hp⟩
@@ -243,13 +259,13 @@ theorem icecast_stop_complete (size H : Nat) (prot : Bool) (hH : 1 ≤ H) (S : B
 /-- non-vacuity: 9 bytes through blocks of 4 with a short read in the middle (oracle 1 ⇒ 2
     bytes) — the stream is NOT flagged after the short read, only after the empty one. -/
 example :
-    let iw := ((IWorld.init 10 5 false (pat 0 0 9) [9, 1]).run
+    let iw := ((IWorld.init 10 5 false 0 (pat 0 0 9) [9, 1]).run
       [.feed 4, .fetch 4, .store, .read 5, .feed 4, .feed 4, .feed 4]).1
     (∀ op ∈ [IOp.feed 4, .fetch 4, .store, .read 5, .feed 4, .feed 4, .feed 4], op.blockOk = true) ∧
     iw.stopped = true ∧ iw.w.b.pending = pat 0 5 4 := by decide
 
 example :
-    (((IWorld.init 10 5 false (pat 0 0 9) [9, 1]).run [.feed 4, .fetch 4]).1.stopped) = false := by decide
+    (((IWorld.init 10 5 false 0 (pat 0 0 9) [9, 1]).run [.feed 4, .fetch 4, .store]).1.stopped) = false := by decide
 
 /-! ## The sizes the library really uses (regenerated from the source on every run) -/
 
